@@ -929,6 +929,12 @@ fn load_config_from_string(cfg: &str) -> Result<SharedConfig, Error> {
     }
 }
 
+/// Loads a configuration from a string (simulation only).
+#[cfg(erbium_verif)]
+pub fn load_config_from_string_verif(cfg: &str) -> Result<SharedConfig, Error> {
+    load_config_from_string(cfg)
+}
+
 #[cfg(test)]
 pub fn load_config_from_string_for_test(cfg: &str) -> Result<SharedConfig, Error> {
     load_config_from_string(cfg)
